@@ -64,14 +64,18 @@ def run(v, tier, seed):
         bf = W("beh%d.ndjson" % int(prefer)); rep = W("rep%d.ndjson" % int(prefer))
         vlib.write_ndjson(bf, [{"id": i, "steps": s} for i, s in enumerate(beh)])
         rc, out, err = vlib.run([rw, "replay", bf, "1" if prefer else "0", rep], timeout=(1200 if tier == "quick" else 3400))
-        if rc != 0: raise vlib.MachineryError("rw replay failed rc=%s: %s %s" % (rc, out[-500:], err[-1500:]))
+        if rc != 0:
+            vlib.harness_failed(v, rc, out, err, "rw replay (prefer=%s)" % prefer, "crash")
+            return st, [{"summary": True, "behaviours": 0, "followed": 0, "drifted": 0, "steps": 0, "events": 0, "yields": 0}], beh[:1]
         rows = vlib.read_ndjson(rep)
         return st, rows, beh[:1] + beh[len(beh) // 2: len(beh) // 2 + 1]
 
     def explore(prefer, iters, nt, nops, ntraces):
         rep = W("ex%d.ndjson" % int(prefer)); tr = W("trace%d.ndjson" % int(prefer))
         rc, out, err = vlib.run([rw, "explore", str(iters), str(nt), str(nops), str(seed), "1" if prefer else "0", rep, tr, str(ntraces)], timeout=(1200 if tier == "quick" else 3400))
-        if rc != 0: raise vlib.MachineryError("rw explore failed rc=%s: %s %s" % (rc, out[-500:], err[-1500:]))
+        if rc != 0:
+            vlib.harness_failed(v, rc, out, err, "rw explore (prefer=%s, seed %d)" % (prefer, seed), "crash")
+            return [{"summary": True, "executions": 0, "yields": 0, "events": 0, "traces_written": 0}], True, None, None, 0, None
         rows = vlib.read_ndjson(rep)
         # validate the recorded traces against the specification
         name = "Trace_prefer%d.cfg" % int(prefer)
@@ -130,7 +134,7 @@ def run(v, tier, seed):
                 # the code did something the algorithm-level model does not allow, but no property-level monitor fired: drift
                 v.drift += 1
                 vlib.log("DRIFT property=C18 recorded trace (prefer=%s) is not a behaviour of RWImpl: first unexplained line %s of %s in %s" % (p, maxline, nlines, tr))
-    if tot["followed"] == 0: raise vlib.MachineryError("no behaviour could be followed")
+    if tot["followed"] == 0 and not v.violations: raise vlib.MachineryError("no behaviour could be followed")
     cov = {"states": tot["states"], "transitions": tot["transitions"],
            "traces_validated_against_impl": tot["followed"] + tot["traces"],
            "behaviours_replayed": tot["behaviours"], "behaviours_followed_to_the_end": tot["followed"], "replay_steps": tot["steps"],
